@@ -222,6 +222,10 @@ def footprint_job(job):
         wcs = footprint_wcs(nx, ny, scale, rot, parity, center)
         data = np.arange(nx * ny, dtype=np.float32).reshape(ny, nx) + 1
         try:
+            # a smaller image carrying an EQUAL WCS was filtered earlier in this process (a cut-out of the same
+            # frame): what the filter knows about an image depends on its size too
+            if nx >= 4 and ny >= 4:
+                WcsSampler(np.ones((max(1, ny // 4), max(1, nx // 4)), dtype=np.float32), wcs.deepcopy()).filter()
             flt = WcsSampler(data, wcs).filter()
         except Exception as e:
             bad("filter-constructor-raises:%s" % type(e).__name__, repr(e))
@@ -507,7 +511,9 @@ def run(tier, seed):
     for i in range(nf):
         if fl[i::nf]:
             jobs.append(("footprint", fl[i::nf], tier == "thorough"))
-    chunks = [(8, 4, 1, 1, 1), (16, 8, 2, 1, 1), (24, 12, 2, 2, 2), (30, 14, 3, 2, 2)]
+    # the last three: coarse maps cut in thirds / fifths, whose chunk edges fall inside tiles within half a map pixel
+    # of a tile edge (a filter box measured between pixel centres instead of pixel edges loses the rim)
+    chunks = [(8, 4, 1, 1, 1), (16, 8, 2, 1, 1), (24, 12, 2, 2, 2), (30, 14, 3, 2, 2), (12, 10, 4, 2, 3), (15, 9, 5, 3, 2), (9, 6, 3, 3, 3)]
     if tier == "thorough":
         chunks += [(96, 48, 4, 4, 2), (50, 26, 3, 3, 3), (17, 9, 4, 4, 2)]
     for c in chunks:
